@@ -85,7 +85,19 @@ def run_replace(run, P):
         if t.get('k') == 'call' and t.get('fn') == 'coap_delete_observer':
             e = apply_generic(ev, env, R).copy()
             if env.ts.get('ck') == 'found':
-                e.ts['ck'] = 'deleted'
+                # the entry is deleted by (resource, session, token): the token has to be the FOUND entry's, not the new request's
+                fv = (env.ts.get('from') or (None,))[0]
+                args = t.get('a') or []
+                own = bool(fv) and len(args) >= 3 and any(isinstance(x, dict) and ap(x) == fv for x in walk(args[2]))
+                run.oblige('R-OBS-REPLACE', own, 'delete-names-the-found-entry')
+                if own:
+                    e.ts['ck'] = 'deleted'
+                else:
+                    run.violation('R-OBS-REPLACE', ADD, ev['loc'], 'delete-by-foreign-token',
+                                  'the subscription found by cache key is to be deleted, but coap_delete_observer() is given %s, which is not taken from the found entry: the look-up '
+                                  'by session and token inside it finds nothing (the new request has a new token) and the old subscription stays' %
+                                  (short(args[2])[:40] if len(args) >= 3 else '?'), ctx.path())
+                    e.ts['ck'] = 'deleted'      # reported once; do not cascade into the create obligation
             return [e]
         if t.get('k') == 'asg' and env.ts.get('from') and ap(t['l']) == env.ts['from'][0] and not c:
             e = apply_generic(ev, env, R).copy()
